@@ -107,6 +107,36 @@ def oracle(sc, res, seed=0):
         if not ok or float(np.max(np.abs(dg.imag))) > 1e-12 * scale:
             fails.append(Fail("C06/%s/diag" % est, "diagonal differs from the single-channel estimator / is not real",
                               {"relative_deviation": e, "max_imag": float(np.max(np.abs(dg.imag)))}, "equal, real"))
+    # ---- homogeneity: EVERY case is re-run on exact power-of-two multiples far from its own scale (2^-45, 2^+35)
+    # and with a different power of two per channel: entry (i, j) must scale by c_i * c_j (to rounding) and the
+    # frequencies must not move; integer-dtype samples are re-run as the same samples in float64
+    akey = "C06/multi_taper_csd/adaptive-scale" if sc.get("adaptive") else "C06/%s/scale" % est
+    xf = np.asarray(x, dtype=complex if sc["cplx"] else float)
+    uni, per = S.scale_factors(xf, seed)
+    trials = [(np.full(M, a), "a = 2^%d" % int(np.log2(a))) for a in uni]
+    if per is not None:
+        trials.append((per, "per channel, log2 c = %s" % [int(v) for v in np.log2(per)]))
+    for cvec, label in trials:
+        r2 = S.run_scenario(sc, data=(xf.reshape(M, n) * cvec[:, None]).reshape(xf.shape))
+        if r2["err"] is not None:
+            fails.append(Fail(akey, "the estimator raises on rescaled data (%s): %r" % (label, r2["err"]), label, "c_i c_j scaling"))
+            break
+        want = out * cvec[:, None, None] * cvec[None, :, None]
+        ok, e = close_arr(mat_of(sc, r2), want)
+        same_f = np.array_equal(np.asarray(r2.get("f")), np.asarray(res.get("f")))
+        if not ok or not same_f:
+            fails.append(Fail(akey, "scaling channel i by c_i does not scale entry (i, j) by c_i c_j"
+                              + ("" if same_f else " (and the frequency axis moved)"),
+                              {"factors": label, "relative_deviation": e}, "c_i c_j scaling"))
+            break
+    if sc.get("dtype"):
+        rfl = S.run_scenario(sc, data=xf)
+        if rfl["err"] is None:
+            ok, e = close_arr(mat_of(sc, rfl), out)
+            if not ok or np.asarray(rfl["out"]).dtype != np.asarray(res["out"]).dtype:
+                fails.append(Fail("C06/%s/int-dtype" % est, "integer-dtype samples give another matrix than the same samples in float64",
+                                  {"dtype": sc["dtype"], "out_dtype": str(np.asarray(res["out"]).dtype), "relative_deviation": e},
+                                  "identical result"))
     rng = np.random.default_rng(seed + 17)
     # ---- permutation equivariance
     if M > 1:
@@ -169,6 +199,17 @@ def gen_all(ctx):
         scs.append(S.runnable(lambda: S.force_bw_nfft(rng, S.gen_scenario(rng, "multi_taper_csd", nmax=16 if q else 32, max_ch=2 if q else 4), idx=_)))
     for _ in range(ctx.scale(2, 12)):
         scs.append(S.runnable(lambda: S.force_few_tapers(rng, S.gen_scenario(rng, "multi_taper_csd", nmax=16 if q else 32, max_ch=2 if q else 4))))
+    # integer-dtype samples (incl. two leading dimensions)
+    plan_i = [("periodogram_csd", [3]), ("multi_taper_csd", [2]), ("welch", [3]), ("multi_taper_csd", [2, 2]), ("periodogram_csd", [2, 2])]
+    for i in range(ctx.scale(5, 25)):
+        est, lead = plan_i[i % len(plan_i)]
+        if est == "welch":
+            sc = S.gen_welch(rng)
+            while len(sc["shape"]) < 2 or sc["cplx"]:
+                sc = S.gen_welch(rng)
+            scs.append(S.force_int(rng, sc))
+        else:
+            scs.append(S.runnable(lambda: S.force_int(rng, S.gen_scenario(rng, est, nmax=14 if q else 32, lead=lead, layout="C"))))
     # adaptive weights on nearly coherent, differently coloured channels (PSD clause tight)
     for _ in range(ctx.scale(4, 24)):
         scs.append(S.runnable(lambda: S.force_coherent(rng, S.gen_scenario(rng, "multi_taper_csd", nmax=20 if q else 48, min_ch=2,
